@@ -19,8 +19,9 @@ NONNEG_FINITE = frozenset(('+0', 'ps', '1', 'pb'))
 def builder_env(kt_start):
     return {
         'self.kt_start': kt_start,
-        'self.kt_finish#Some.0': F('+0', 'ps', '1', 'pb'),
-        'self.kt_ratio#Some.0': F('+0', 'ps', '1'),
+        # "whatever the other settings are": every finite value the CLI accepts, of either sign
+        'self.kt_finish#Some.0': F('nb', '-1', 'ns', '-0', '+0', 'ps', '1', 'pb'),
+        'self.kt_ratio#Some.0': F('nb', '-1', 'ns', '-0', '+0', 'ps', '1', 'pb'),
         'self.steps': U64, 'self.inner_steps': U64,
         'self.max_step_size': F('+0', 'ps', '1', 'pb'),
         'self.seed#Some.0': U64,
@@ -53,8 +54,8 @@ def zero_stays_zero(ctx, oa, fams, bb, kt_l, r1, r2, key_prefix=''):
         rep.check(ok, r1, key_prefix + lab, where(bb),
                   'cooling factor in %s for kt_start=+0' % show(r),
                   'with kt_start = 0 and %s the cooling factor computed by the builder is %s (not finite/non-negative): '
-                  '0 * inf = NaN makes kT NaN after the first inner loop, min(exp(x/NaN),1) = 1, and every valid move '
-                  'is then accepted' % (lab, show(r)))
+                  '0 * inf = NaN makes kT NaN after the first inner loop (min(exp(x/NaN),1) = 1), 0 * negative = -0.0 makes '
+                  '(new-old)/kT = +inf for a worse move (min(exp(inf),1) = 1): every valid move is then accepted' % (lab, show(r)))
         lf = LocalFix(oa.body, fv)
         kv = lf.env.get(kt_l)
         ok2 = kv is not None and kv[0] == 'f' and kv[1] <= frozenset(('+0',))
@@ -68,7 +69,7 @@ def zero_stays_zero(ctx, oa, fams, bb, kt_l, r1, r2, key_prefix=''):
 def run(ctx):
     rep, f = ctx.rep, ctx.facts
     rep.trust('pk/sym.py, pk/absval.py (IEEE class arithmetic incl. 0*inf=NaN, x/0=inf, min(NaN,1)=1), pk/optmodel.py')
-    rep.assume('admissible settings: kt_finish >= 0 finite, kt_ratio in [0,1], scores of valid states finite')
+    rep.assume('settings: kt_finish, kt_ratio any finite f64 (what the CLI accepts); scores of valid states finite')
     try:
         oa = OptimiserAnchors(f)
     except AnchorLost as e:
